@@ -203,7 +203,7 @@ fn run_case(ctx: &Ctx, case: u64, rep: &mut Report) {
 pub fn run(ctx: &Ctx) -> Report {
     let mut rep = Report::new(
         "exploration",
-        "one live worker per case; a random sequence of 10..200 requests over the 42 request types the main process can send to a worker (valid, invalid, duplicate and unknown-target arguments; lifecycle sub-sequences over-weighted), in raw mode (exactly-once only) or master-filtered mode (a reference ConfigState dispatches first, only accepted commands are forwarded; then convergence and behaviour oracles), sent one at a time or in bursts, optionally with HTTP traffic interleaved, closed by [ReturnListenSockets +] SoftStop or HardStop; one case in twelve adds back-pressure episodes (3..7 commands with ids padded to 0.3..1.6 MB, i.e. answers around and above half of max_command_buffer_size, written while the harness does not read, then drained slowly); a case is non-trivial when >= 5 commands reached the worker; distinct = distinct (mode, verb sequence) shapes",
+        "one live worker per case; a random sequence of 10..200 requests over the 42 request types the main process can send to a worker (valid, invalid, duplicate and unknown-target arguments; lifecycle sub-sequences over-weighted), in raw mode (exactly-once only) or master-filtered mode (a reference ConfigState dispatches first, only accepted commands are forwarded; then convergence and behaviour oracles), sent one at a time or in bursts, optionally with HTTP traffic interleaved, closed by [ReturnListenSockets +] SoftStop or HardStop; occupied-address activation faults (the harness holds the listener address, ActivateListener is refused, the address is released, ActivateListener is retried) are mixed in; one case in twelve adds back-pressure episodes (3..7 commands with ids padded to 0.3..1.6 MB, i.e. answers around and above half of max_command_buffer_size, written while the harness does not read, then drained slowly); a case is non-trivial when >= 5 commands reached the worker; distinct = distinct (mode, verb sequence) shapes",
     );
     rep.assume("verbs the main process never forwards to workers (SaveState, ListWorkers, ...) are outside the quantifier and never sent");
     rep.assume("SoftStop/HardStop are only sent last; ReturnListenSockets mid-sequence only in raw mode (the main process sends it only right before SoftStop)");
@@ -215,7 +215,7 @@ pub fn run(ctx: &Ctx) -> Report {
         "sequences/raw", "sequences/master_filtered", "sequences/bursts", "sequences/one_at_a_time", "sequences/with_interleaved_traffic",
         "ids_accounted", "convergence/hashes_checked", "convergence/cluster_by_id_checked", "convergence/dump_checked", "convergence/backend_table_checked",
         "listener_probes/active", "listener_probes/active_served", "listener_probes/refused_as_expected", "route_probes", "route_probes/landed_on_backend_of_cluster",
-        "c07_failure_checked", "closing/SoftStop/exited", "backpressure/episodes", "backpressure/padded_commands", "sequences/small_command_buffers", "https_route_probes", "https_route_probes/landed_on_backend_of_cluster", "udp_probes", "udp_probes/relayed_to_backend_of_cluster", "tcp_route_probes/relayed_to_backend_of_cluster", "closing/soft_stop_event_logs_checked", "bursts",
+        "c07_failure_checked", "closing/SoftStop/exited", "backpressure/episodes", "backpressure/padded_commands", "activation_fault/address_held_by_the_harness", "activation_fault/tcp/first_activation_answered_failure", "activation_fault/http/first_activation_answered_failure", "activation_fault/https/first_activation_answered_failure", "activation_fault/udp/first_activation_answered_failure", "activation_fault/tcp/retry_answered_ok", "activation_fault/listening_after_ok_retry", "sequences/small_command_buffers", "https_route_probes", "https_route_probes/landed_on_backend_of_cluster", "udp_probes", "udp_probes/relayed_to_backend_of_cluster", "tcp_route_probes/relayed_to_backend_of_cluster", "closing/soft_stop_event_logs_checked", "bursts",
         "pattern/listener:add-activate-deactivate-reactivate", "pattern/listener:remove-while-active", "pattern/listener:add-remove-never-activated",
         "pattern/backend:same-id-two-addresses", "pattern/backend:same-address-two-ids", "pattern/cluster:remove-with-frontends-and-backends-left",
         "pattern/frontend:added-before-its-listener",
